@@ -11,6 +11,15 @@ def I(**kw): return dict(type="integer", **kw)
 def S(**kw): return dict(type="string", **kw)
 def A(items, **kw): return dict(type="array", items=items, **kw)
 def O(props, required=(), **kw): return dict(type="object", properties=props, required=list(required), **kw)
+def REF(i): return dict(ref=i)
+def ALLOF(name, base_props, base_required, extra_required, extra_props=None, base_first=True):
+    """allOf[$ref Base, {type: object, required: [...], properties: ...}]: semantic form = the merged object"""
+    merged = dict(base_props); merged.update(extra_props or {})
+    s = O(merged, required=list(dict.fromkeys(list(base_required) + list(extra_required))))
+    second = dict(type="object", required=list(extra_required))
+    if extra_props: second["properties"] = extra_props
+    s["yaml_allof"] = (name, O(base_props, required=base_required), second, base_first)
+    return s
 
 SCHEMAS = [
     I(minimum=1, maximum=10),
@@ -36,11 +45,28 @@ SCHEMAS = [
     O({"items": A(O({"p": S(), "q": A(I())}, required=[])), "t": I()}, required=["items"]),
     # uniqueItems combined with length bounds
     A(I(), uniqueItems=True, maxItems=3, minItems=1),
+    # recursive schemas: the self-referencing member is declared BEFORE the first member that carries a validator
+    O({"next": REF(20), "value": I(minimum=0, maximum=50), "tag": S(maxLength=1)}, required=[]),
+    O({"children": A(REF(21), maxItems=2), "name": S(minLength=1)}, required=["name"]),
+    O({"value": I(minimum=0, maximum=50), "next": REF(22)}, required=["value"]),
+    # allOf: a branch that only lists required members of the other branch; both orders; a branch with own properties
+    ALLOF("B23", {"id": I(), "name": S(maxLength=2), "note": S()}, [], ["id", "name"]),
+    ALLOF("B24", {"id": I(minimum=1), "name": S()}, ["id"], ["name"], base_first=False),
+    ALLOF("B25", {"id": I(), "k": I(maximum=9)}, ["id"], ["k", "x"], extra_props={"x": S(minLength=1)}),
 ]
 
+EXTRA_COMPONENTS = []
 def yaml_schema(s, ind):
     pad = " " * ind
     L = []
+    if "ref" in s:
+        return [pad + "$ref: '#/components/schemas/S%d'" % s["ref"]]
+    if "yaml_allof" in s:
+        name, base, second, base_first = s["yaml_allof"]
+        EXTRA_COMPONENTS.append((name, base))
+        branches = [[pad + "  - $ref: '#/components/schemas/%s'" % name], [pad + "  - " + yaml_schema(second, 0)[0]] + [pad + "    " + l for l in yaml_schema(second, 0)[1:]]]
+        if not base_first: branches.reverse()
+        return [pad + "allOf:"] + branches[0] + branches[1]
     for k, v in s.items():
         if k == "properties":
             L.append(pad + "properties:")
@@ -59,6 +85,8 @@ def yaml_schema(s, ind):
     return L
 
 def go_schema(s):
+    if "ref" in s:
+        return "&zzSchema{Ref: %d}" % (s["ref"] + 1)
     f = ["Type: %s" % json.dumps(s["type"])]
     if s.get("nullable"): f.append("Nullable: true")
     if "minimum" in s: f.append("Min: zzI64(%d)" % s["minimum"])
@@ -90,6 +118,9 @@ L += ["components:", "  schemas:"]
 for i, s in enumerate(SCHEMAS):
     L.append("    S%d:" % i)
     L += yaml_schema(s, 6)
+for name, base in EXTRA_COMPONENTS:
+    L.append("    %s:" % name)
+    L += yaml_schema(base, 6)
 spec = "\n".join(L) + "\n"
 data = ["package PKGNAME", "", "var zzSchemas = []*zzSchema{"] + ["\t%s," % go_schema(s) for s in SCHEMAS] + ["}", "", "func zzNew(i int) any {", "\tswitch i {"]
 for i in range(len(SCHEMAS)):
@@ -104,5 +135,5 @@ for i in range(len(SCHEMAS)):
         rnd.append([0, i, v])
 print(json.dumps({"packages": [{"name": "sm", "spec": spec, "extra_go": {"data.go": "\n".join(data) + "\n"}}],
                   "cases": {tier: ([{"entry": "HAccept", "args": acc}] if mode == "accept" else [{"entry": "HRound", "args": rnd}])},
-                  "bounds": {"schemas": "%d named schemas: integer bounds (inclusive/exclusive/negative), multipleOf, integer and string enums, string length, arrays (min/max/uniqueItems, nested item validation), objects (required/optional/nullable members, additionalProperties:false, nesting, 10 and 18 members so the required mask spans 2 and 3 bytes)" % len(SCHEMAS),
+                  "bounds": {"schemas": "%d named schemas: integer bounds (inclusive/exclusive/negative), multipleOf, integer and string enums, string length, arrays (min/max/uniqueItems, nested item validation), objects (required/optional/nullable members, additionalProperties:false, nesting, 10 and 18 members so the required mask spans 2 and 3 bytes), three recursive schemas (member / array-item self reference, unfolded to depth 2) and three allOf schemas (a branch that only lists required members of the other, both orders, a branch with own properties)" % len(SCHEMAS),
                              "instances": "%d schema-directed instance skeletons per schema (valid instances, dropped required member, wrong type, null, undeclared member; 0..3 array items; optional members present/absent/null) with symbolic leaves: every digit of 1-2 digit integers with optional sign, every printable-ASCII string byte (0..2 bytes plus a two-byte rune), every boolean" % nvar}}))
